@@ -141,9 +141,13 @@ def inherit_instance(tier, seed=0):
         # overridden in the later branch C -- D.x follows C (C3: D, B, C, A)
         defs({"A": {"x": C("X1"), "y": C("Y1")}, "C": {"x": C("X2")}}, {"A": {"r": R(["int", 1, [], ""])}},
              {"B": [["A"]], "C": [["A"]], "D": [["B"], ["C"]]}),
+        # a base that is both direct and inherited: A(B), D(A, C, B) linearises D, A, C, B, so
+        # D.x comes from C; without the direct B it is D, A, B, C and D.x comes from B
+        defs({"B": {"x": C("X1")}, "C": {"x": C("X2")}}, {"B": {"r": R(["int", 1, [], ""])}},
+             {"A": [["B"]], "D": [["A"], ["C"], ["B"]]}),
     ]
     if tier == "quick":
-        inits = inits[1:4] + inits[5:6]
+        inits = inits[1:4] + inits[5:7]
     ops = []
     names = ["A", "B", "C", "D"]
     for s in names:
@@ -180,8 +184,9 @@ def inherit_instance(tier, seed=0):
     if tier == "quick":
         rng.shuffle(ops)
         rng.shuffle(structural)
-        fx3 = [o for o in ops if o["op"] == "set_formula" and o["f"] == "X3"]
-        keep = [o for o in ops if o["op"] in ("add_bases",)][:8] + [o for o in ops if o["op"] != "add_bases" and o["op"] != "remove_bases" and o not in fx3][:14] + fx3 + [o for o in ops if o["op"] == "remove_bases"][:4] + structural[:4]
+        fx3 = [o for o in ops if o["op"] == "set_formula" and o["f"] == "X3"] + \
+              [o for o in ops if o["op"] == "remove_bases" and o["s"] == ["D"] and o["bs"] == [["B"]]]
+        keep = [o for o in ops if o["op"] in ("add_bases",)][:8] + [o for o in ops if o["op"] != "add_bases" and o["op"] != "remove_bases" and o not in fx3][:14] + fx3 + [o for o in ops if o["op"] == "remove_bases" and o not in fx3][:3] + structural[:4]
         ops = keep
     else:
         ops = ops + structural
